@@ -213,6 +213,14 @@ def fun_pair(emit, cid, pair, rng, sample):
         cmp_emit(emit, cid, pair, "get_lipschitz", A.get_lipschitz(X, y), B.get_lipschitz(Xr, yr))
         cmp_emit(emit, cid, pair, "get_global_lipschitz", A.get_global_lipschitz(X, y), B.get_global_lipschitz(Xr, yr), rel=1e-8)
         cmp_emit(emit, cid, pair, "intercept_update_step", A.intercept_update_step(y, X @ w), B.intercept_update_step(yr, Xr @ w))
+        # the CSC accessors of the weighted datafit against the dense ones of the replicated data (the sparse global
+        # constant comes from a power method: 1e-3 relative)
+        As = cc(D.WeightedQuadratic(sw))
+        As.initialize_sparse(*sp3, y)
+        cmp_emit(emit, cid, pair, "get_lipschitz_sparse", As.get_lipschitz_sparse(*sp3, y), B.get_lipschitz(Xr, yr))
+        cmp_emit(emit, cid, pair, "get_global_lipschitz_sparse", As.get_global_lipschitz_sparse(*sp3, y),
+                 B.get_global_lipschitz(Xr, yr), rel=1e-3)
+        cmp_emit(emit, cid, pair, "full_grad_sparse", As.full_grad_sparse(*sp3, y, X @ w), B.gradient(Xr, yr, Xr @ w))
     elif pair == "cox_efron~breslow_no_ties":
         ys = C.make_target(rng, X, "surv", ties=False)
         if int(cid.rsplit("/r", 1)[1]) % 2 == 1 and n >= 6:
